@@ -127,8 +127,9 @@ def gen_mdoc(rng, n, cls="plain", section_id="ZValue", scheme=None, ties=False, 
              allow_exp=False):
     """-> struct dict(header=[(k,v)], titles=[..], section_id, sections=[{"id": text, "items": [(k, v), ...]}], layout={...})
     All values are texts as they will stand in the file (already stripped)."""
-    hostile = cls in ("values", "expfloat")
-    nh = int(rng.integers(0, 7))
+    hostile = cls in ("values", "expfloat", "unicode")
+    uni = cls == "unicode"                 # non-ASCII text (degree / micro / Angstrom signs, accented names) in titles, header, image values
+    nh = int(rng.integers(2 if uni else 0, 7))
     hkeys = [str(x) for x in rng.choice(HEADER_KEYS, nh, replace=False)]
     header = []
     for k in hkeys:
@@ -136,18 +137,21 @@ def gen_mdoc(rng, n, cls="plain", section_id="ZValue", scheme=None, ties=False, 
         kind = str(rng.choice(kinds))
         if cls == "expfloat" and rng.random() < 0.5:
             kind = "expfloat"
+        if uni and rng.random() < 0.6:
+            kind = "unicode"
         header.append((k, gen_value(rng, kind)))
     titles = []
     if section_id == "ZValue":
-        for _ in range(int(rng.integers(0, 4))):
+        for _ in range(int(rng.integers(1 if uni else 0, 4))):
             r = rng.random()
+            deg = "°" if (uni or rng.random() < 0.25) else ""
             if r < 0.4:
                 titles.append("T = SerialEM: Digitized on %s  %s" % (str(rng.choice(["Krios", "Glacios", "Arctica"])), gen_value(rng, "datetime")))
             elif r < 0.8:
-                titles.append("T =     Tilt axis angle = %.1f, binning = %d  spot = %d  camera = %d" % (
-                    rng.uniform(-180, 180), rng.integers(1, 5), rng.integers(1, 10), rng.integers(0, 3)))
+                titles.append("T =     Tilt axis angle = %.1f%s, binning = %d  spot = %d  camera = %d" % (
+                    rng.uniform(-180, 180), deg, rng.integers(1, 5), rng.integers(1, 10), rng.integers(0, 3)))
             else:
-                titles.append("T = %s" % gen_value(rng, "text").replace("[", "(").replace("]", ")").strip() or "T = x")
+                titles.append("T = %s" % gen_value(rng, "unicode" if uni else "text").replace("[", "(").replace("]", ")").strip() or "T = x")
     else:
         header.insert(0, ("T", "SerialEM: Acquired on %s  %s" % (str(rng.choice(["Krios", "Glacios"])), gen_value(rng, "datetime"))))
     # ---- section keys
@@ -162,7 +166,7 @@ def gen_mdoc(rng, n, cls="plain", section_id="ZValue", scheme=None, ties=False, 
     keys = [keys[j] for j in rng.permutation(len(keys))]
     kinds = {}
     for k in keys:
-        pool = ["int", "float", "text", "pair", "neg", "mixed_num"] + (["special", "mixed_all", "empty"] if hostile else [])
+        pool = ["int", "float", "text", "pair", "neg", "mixed_num"] + (["special", "mixed_all", "empty"] if hostile else []) + (["unicode"] * 4 if uni else [])
         kinds[k] = str(rng.choice(pool))
     if value_kinds:
         kinds.update(value_kinds)
